@@ -30,6 +30,14 @@ fn letters_all(b: &Base) -> Vec<u8> {
 
 /// Scenario lattice of a path property. Deterministic; replay files index into it.
 pub fn scenarios(prop: &str, tier: &str) -> Vec<Scenario> {
+    let mut v = scenarios_unordered(prop, tier);
+    // families that change a parameter on a live planner first: on a tree where most executions run into the
+    // callback cap the run is stopped early, and what these found by then is still reported
+    v.sort_by_key(|s| !s.tag.contains("step-raised"));
+    v
+}
+
+fn scenarios_unordered(prop: &str, tier: &str) -> Vec<Scenario> {
     let thorough = tier != "quick";
     if prop == "C04" {
         return scenarios_c04(tier);
@@ -350,7 +358,7 @@ pub fn scenarios(prop: &str, tier: &str) -> Vec<Scenario> {
             for pk in Pk::ALL {
                 for w in [b.world_named("subset0111", vec![b.obstacles[0].clone(), b.obstacles[1].clone(), b.obstacles[2].clone()]), b.world_free()] {
                     let mut sc = b.scenario(w.clone(), b.params(pk, if prop == "C03" { 1e6 } else { 1.6 }, 2.5, 0.0), &format!("{prop}/{kit}/{}/{}/step-raised-after-setup", w.name, pk.name()));
-                    sc.step_raise = if prop == "C03" { 2e6 } else { 20.0 };
+                    sc.step_raise = if prop == "C03" { 2e7 } else { 20.0 }; // C03: constructed with a step of 0.05, i.e. one or two check points per motion
                     out.push(sc);
                 }
             }
@@ -960,6 +968,8 @@ pub fn run(prop: &'static str, tier: &'static str) -> i32 {
     let all = scenarios(prop, tier);
     let mut rep = Report::new();
     rep.count("scenarios", all.len() as u64);
+    // (bounded part: at most five samples per execution - see seams::CB_CAP)
+    crate::seams::CB_CAP.store(if tier == "quick" { 1_000_000 } else { 2_500_000 }, std::sync::atomic::Ordering::Relaxed);
     // determinism self-test: run the first history of a spread of scenarios twice
     determinism_probe(prop, &all, &mut rep);
     for kit in KITS {
@@ -981,6 +991,7 @@ pub fn run(prop: &'static str, tier: &'static str) -> i32 {
     };
     // supplementary: deep seeded executions judged by the same oracle (C02's endpoints are covered by
     // the call-history exploration instead)
+    crate::seams::CB_CAP.store(crate::seams::TOTAL_CB_CAP, std::sync::atomic::Ordering::Relaxed);
     if prop != "C02" {
         rep.merge(crate::props_deep::run(prop, tier));
     }
